@@ -120,8 +120,9 @@ claim('C26', 'declared operator table (typed HIR of init_builtin_classes) vs abs
 claim('C03', 'row-by-row soundness of the comparison-atom arms of is_super_pred_of under a three-orderings model; quantifier structure of the And/Or arms',
       'Decides (R1) that each atom x atom row (Equal/NotEqual/GreaterEqual/LessEqual on both sides) answers "super" only when the set of integers really is a superset, for every '
       'ordering of the two constants (complete for the 14 rows; the truth tables of TyParamOrdering::is_lt/canbe_le/... are read from the source), (R2) that the And arm '
-      'quantifies over the super side and the Or arm over the sub side, and (comb, shared with C32) that the predicate constructors and / or keep every conjunct / disjunct.',
-      'reduce_preds, Not, General* predicates and the interplay with unification are not decided (e.g. `not (I <= 5)` refinements are accepted for any argument today: outside these rules).',
+      'quantifies over the super side and the Or arm over the sub side, (mentions) that the occurrence test deciding whether a refinement constrains its variable inspects every variant with sub-terms, and (comb, shared with C32) that the predicate constructors and / or keep every conjunct / disjunct.',
+      'reduce_preds, General* predicates, the completeness of the test on `not (..)` predicates (they are now rejected rather than vacuously accepted) and the interplay with unification are not decided. '
+      'Seen, not demonstrated: Predicate::can_be_false answers `!p.can_be_false()` for Not(p) and `l && r` for And(l, r).',
       'DESIGN.md §3 C03')
 
 claim('C32', 'table rule over the resolved arms of Predicate::invert / and / or under the three-orderings model; propositional equivalence (truth tables) of the arms and branches of and / or',
